@@ -250,6 +250,22 @@ def _iter_expect(prog, op):
     return items
 
 
+def _iter_expect_collapsed(prog, op):
+    """expected items of an unrooted iteration when all nodes below one failing key prefix are reported once"""
+    D, tg = op["d"], op["tg"]
+    items, last = [], None
+    for st, leaf in SP.enum(prog.t, D):
+        r = SP.render(st, tg, D)
+        if r is not None:
+            items.append([0, r, len(st), int(leaf)]); last = None
+        else:
+            fd = SP.fail_depth(st, tg, D)
+            key = tuple(x[0] for x in st[:fd])
+            if key != last:
+                items.append([1, fd]); last = key
+    return items
+
+
 def _collapsed_count(prog, op):
     """number of items when all nodes below one failing key prefix are reported by a single error item"""
     D, tg = op["d"], op["tg"]
@@ -329,6 +345,13 @@ def pred_iter(prog, case, outs, tables, rooted):
                 bad.append((j, "with limited capacity the encodable nodes are %d, yielded %d (or in another order)" % (len(ok_exp), len(ok_got))))
             if len(got) > len(exp):
                 bad.append((j, "more items (%d) than nodes (%d)" % (len(got), len(exp))))
+            # one error item, carrying the failing depth, per key prefix that cannot be written
+            if op.get("root") is None and not op.get("root0"):
+                expc = _iter_expect_collapsed(prog, op)
+                if got != expc and not bad:
+                    k = next((i for i, (a, b) in enumerate(zip(got, expc)) if a != b), min(len(got), len(expc)))
+                    bad.append((j, "with limited capacity: %d items, expected %d (one Err(depth) per key prefix that does not fit); first difference at item %d: %r vs %r"
+                                % (len(got), len(expc), k, got[k] if k < len(got) else None, expc[k] if k < len(expc) else None)))
         elif got != exp:
             k = next((i for i, (a, b) in enumerate(zip(got, exp)) if a != b), min(len(got), len(exp)))
             bad.append((j, "iteration yields %d items, the type has %d nodes to yield; first difference at item %d: %r vs %r"
